@@ -59,8 +59,10 @@
 // (judged only for frames read after a fence taken >= 50 ms after the
 // terminating call returned, at which the adversary drained every socket);
 // a receive fails with NNG_ETIMEDOUT only when the timeout the application
-// set has elapsed (one-sided; key C12/timeout-early/stale-expiry-cancel: the
-// known aio.c expire-loop window, see C02, ends a request the same way).
+// set has elapsed (one-sided).  Key C12/timeout-early/stale-expiry-cancel (the
+// known aio.c expire-loop window, see C02) only when the NNI_VE_AIO_EXPIRE hook
+// saw the expire loop pick this aio during its previous, naturally ended
+// submission shortly before; otherwise C12/timeout-early/unexplained/<evidence>.
 #include "vfh.h"
 
 #include <errno.h>
@@ -132,8 +134,12 @@ typedef struct {
 	bool     use_sock;
 	int      retry_ms; // -1: infinite; the socket's value when the contexts are opened
 	int      gap; // history plan: 1 close / 2 cancel / 3 receive-timeout on context 1, then an idle gap, then the plan on context 0
+	int      reploss; // repeated-loss plan: 1 drop,drop / 2 drop,delay / 3 delay,drop / 4 drop,drop,drop on ONE context and ONE connection that stays up
 	bool     big; // 40-200 kB requests, nng's sends are cut into chunks <= 8 kB (needed for close-partial)
 	bool     mixed; // contexts get their own values (nng_ctx_set_ms), changed between exchanges
+	bool     rtl; // reply-then-loss plan: context 0 (subject) and context 1 (barrier) have a request each on the one connection; the replier answers the subject, then the barrier, and closes when told; the subject posts its receive after the barrier was answered AND the pipe is gone
+	bool     listen; // the REQ socket LISTENS (one listener per replier); the adversary dials it and redials after every loss
+	int      redial; // listen: 0 redial 5-20 ms after a loss, 1 at once, 2 new connection first, old one closed 8 ms later
 	int      tick_ms;
 	int      nsteps;
 	step     steps[MAXSTEPS];
@@ -157,9 +163,13 @@ typedef struct {
 	int      last_conn;
 	bool     nopipe; // submitted while the socket had no pipe
 	bool     timer_retx; // a copy arrived while the previous copy's connection was still there
+	int      loss_copies; // copies that followed the loss of the previous copy's connection
+	bool     handed; // the send completed: the request was handed to a pipe
+	bool     before_barrier; // rtl plan: its complete reply was written in front of the barrier's reply
+	bool     reply_seen_then_loss; // rtl plan: ... and the barrier's receive returned its reply, and then the pipe went away, all before this receive was posted
 	int      partial; // times a connection was closed on a partly read copy
 	bool     replied; // a complete reply to it was written somewhere
-	uint64_t t_issue, t_last_wire;
+	uint64_t t_issue, t_last_wire, t_handed;
 	int      state;
 	uint64_t t_dead; // when the terminating call returned
 	bool     fenced; // every frame written before t_dead has been read
@@ -173,6 +183,7 @@ typedef struct {
 	bool     hs_done;
 	bool     close_after_hs;
 	bool     doomed; // scheduled close pending: requests are ignored
+	bool     on_cmd; // rtl plan: close when the subject context says so
 	bool     close_completes_step;
 	uint64_t close_at;
 	bool     exempt_partial; // a frame was partly read when the last fence was taken
@@ -183,10 +194,12 @@ typedef struct {
 
 typedef struct {
 	int      lfd, spare;
-	uint16_t port;
+	uint16_t port; // listen cases: the port of the REQ socket's listener
 	char     path[100];
 	uint64_t reopen_at;
 	bool     reopen_completes_step;
+	bool     up; // listen cases: this replier is running (it dials whenever it has no connection)
+	uint64_t dial_at;
 } replier;
 
 typedef struct {
@@ -202,6 +215,9 @@ typedef struct {
 	nng_aio    *sa, *ra;
 	atomic_int  sdone, rdone;
 	int         retry_ms; // resend time now set on this context
+	int         nposted; // receives completed on ra so far
+	int         prev_rv; // result of the previous one
+	uint64_t    t_post, t_post_prev; // taken just before the (previous) receive was submitted
 	vf_rng      r;
 	pthread_t   th;
 } rctx;
@@ -229,6 +245,11 @@ static struct {
 	pthread_t        ath;
 	atomic_bool      stop, go, started;
 	atomic_bool      hold; // prelude of a history plan: read requests, do not answer
+	atomic_bool      dial_ok; // listen cases: the REQ socket's listeners exist
+	atomic_bool      barrier_done, close_cmd; // rtl plan
+	int              rtl_xi[2]; // rtl plan: held requests of subject / barrier (-1 none)
+	uint32_t         rtl_id[2];
+	int              rtl_conn[2];
 	_Atomic uint64_t t_fault;
 	atomic_bool      plan_done;
 	_Atomic uint64_t fence_req, fence_ack;
@@ -338,6 +359,38 @@ hb_thread(void *arg)
 	return NULL;
 }
 
+// Witness for the ONE known way a receive can end early with NNG_ETIMEDOUT
+// (aio.c expire loop: it picks an aio whose deadline passed, drops its lock,
+// the operation completes naturally, the application submits the aio again and
+// the pending cancel call lands on the new operation).  The hook notes when the
+// expire loop picked one of our receive aios; only an early timeout with that
+// evidence gets the known key, every other one is C12/timeout-early/unexplained.
+#define NPICK 4
+typedef struct {
+	_Atomic(const void *) aio;
+	_Atomic uint64_t      pick[NPICK]; // times of the most recent picks
+	_Atomic unsigned      npick;
+} watchrec;
+static watchrec W[MAXCTX];
+
+static void
+ev_hook(int ev, const void *obj, uintptr_t a, uintptr_t b)
+{
+	(void) a;
+	(void) b;
+	if (ev != NNI_VE_AIO_EXPIRE) {
+		return;
+	}
+	for (int i = 0; i < MAXCTX; i++) {
+		if (atomic_load(&W[i].aio) == obj) {
+			// (picks of one aio are serialised by its expire queue's lock)
+			unsigned n = atomic_load(&W[i].npick);
+			atomic_store(&W[i].pick[n % NPICK], vf_now_ns());
+			atomic_store(&W[i].npick, n + 1);
+		}
+	}
+}
+
 static void
 mark_fault(int kind)
 {
@@ -375,6 +428,11 @@ tcp_bound(uint16_t *port)
 static void
 rep_up(replier *r)
 {
+	if (G.c.listen) {
+		r->up      = true;
+		r->dial_at = 0;
+		return;
+	}
 	if (r->lfd >= 0) {
 		return;
 	}
@@ -398,6 +456,10 @@ rep_up(replier *r)
 static void
 rep_down(replier *r)
 {
+	if (G.c.listen) {
+		r->up = false;
+		return;
+	}
 	if (r->lfd < 0) {
 		return;
 	}
@@ -424,6 +486,11 @@ conn_close(conn *c, bool by_peer)
 	}
 	close(c->fd);
 	c->fd = -1;
+	if (G.c.listen) {
+		// the replier "process" dials again (a connection of its own may be
+		// there already: then nothing happens)
+		G.rep[c->rep].dial_at = vf_now_ns() + (G.c.redial == 0 ? ms2ns(vf_range(&G.ar, RECONN_MIN, RECONN_MAX)) : 0);
+	}
 	pthread_mutex_lock(&G.mx);
 	G.serial_closed[c->serial] = true;
 	if (by_peer) {
@@ -433,10 +500,14 @@ conn_close(conn *c, bool by_peer)
 }
 
 static void step_done(void);
+static void lose_conn(conn *c, int kind);
 
 static void
 kill_replier(int r, bool listener)
 {
+	if (listener && G.c.listen) {
+		rep_down(&G.rep[r]); // first: it must not dial again meanwhile
+	}
 	for (int i = 0; i < MAXCONN; i++) {
 		if (G.cn[i].fd >= 0 && G.cn[i].rep == r) {
 			conn_close(&G.cn[i], false);
@@ -592,7 +663,7 @@ on_frame(conn *c, const uint8_t *p, size_t plen)
 	int      xi, rv;
 	uint64_t now = vf_now_ns();
 
-	if (G.c.tran == 0 && !atomic_load(&G.myport[c->peer_port])) {
+	if (G.c.tran == 0 && !G.c.listen && !atomic_load(&G.myport[c->peer_port])) {
 		// not a connection of our REQ socket: some other process on this
 		// machine still dials a port that is ours now
 		vf_stat("foreign_connections_dropped", 1);
@@ -645,13 +716,27 @@ on_frame(conn *c, const uint8_t *p, size_t plen)
 		}
 		if (loss) {
 			G.retx_loss++;
+			x->loss_copies++;
 		} else {
 			G.retx_timer++;
 			x->timer_retx = true;
+			if (r_timer(xr) && (long) ((now - x->t_last_wire) / 1000000) < xr - G.c.tick_ms - 5) {
+				// not part of the property (it only says when a copy is due):
+				// today the timer re-sends on every tick once RESENDTIME has
+				// passed (DESIGN 9.6); by read times, so only a statistic
+				vf_stat("timer_copies_closer_than_resendtime", 1);
+			}
 		}
 		vf_class("retx/%s/%s/after-%s", loss ? "pipe-loss" : "timer", rn(xr), fname[atomic_load(&G.last_fault_kind)]);
+		if (G.c.listen && loss) {
+			vf_class("retx-listen/pipe-loss/%s/redial%d/after-%s", rn(xr), G.c.redial, fname[atomic_load(&G.last_fault_kind)]);
+		}
 		if (x->wire == 3) {
 			vf_class("retx/nth>=3/%s/%s", loss ? "pipe-loss" : "timer", rn(xr));
+			if (x->loss_copies == 0) {
+				// second and third copy both by the timer, connection kept
+				vf_class("retx/third-by-timer/%s/%s%s", G.c.tran ? "ipc" : "tcp", rn(xr), G.c.reploss ? "/repeated-loss-plan" : "");
+			}
 		}
 		if (x->wire == 2 && !loss && r_timer(xr)) {
 			// first timer retransmission while the connection of the first
@@ -713,8 +798,7 @@ on_frame(conn *c, const uint8_t *p, size_t plen)
 	switch (s->kind) {
 	case F_CLOSE_READ:
 		if (s->d_ms == 0) {
-			conn_close(c, false);
-			step_done();
+			lose_conn(c, s->kind);
 		} else {
 			c->doomed               = true;
 			c->close_at             = now + ms2ns(s->d_ms);
@@ -725,13 +809,37 @@ on_frame(conn *c, const uint8_t *p, size_t plen)
 		break;
 	case F_CLOSE_HALF:
 		send_reply(c, id, xi, s->var, false);
-		conn_close(c, false);
-		step_done();
+		lose_conn(c, s->kind);
 		break;
 	case F_CLOSE_REPLIED:
+		if (G.c.rtl) {
+			// hold until the subject's and the barrier's request are both
+			// here; then answer the subject FIRST: the REQ socket handles the
+			// frames of one pipe in order, so once the barrier's receive has
+			// returned, the subject's reply has reached its context
+			int who = G.x[xi].ctx == 0 ? 0 : 1;
+			G.rtl_xi[who]   = xi;
+			G.rtl_id[who]   = id;
+			G.rtl_conn[who] = c->serial;
+			if (G.rtl_xi[0] >= 0 && G.rtl_xi[1] >= 0 && G.rtl_conn[0] == G.rtl_conn[1]) {
+				send_reply(c, G.rtl_id[0], G.rtl_xi[0], -1, false);
+				pthread_mutex_lock(&G.mx);
+				G.x[G.rtl_xi[0]].before_barrier = G.x[G.rtl_xi[0]].replied && c->fd >= 0;
+				pthread_mutex_unlock(&G.mx);
+				send_reply(c, G.rtl_id[1], G.rtl_xi[1], -1, false);
+				if (c->fd >= 0) {
+					c->doomed = true; // closed when the subject says so
+					c->on_cmd = true;
+					G.consumed = true;
+					mark_fault(s->kind);
+				} else {
+					step_done();
+				}
+			}
+			break;
+		}
 		send_reply(c, id, xi, -1, false);
-		conn_close(c, false);
-		step_done();
+		lose_conn(c, s->kind);
 		break;
 	case F_DROP:
 		if (r_timer(xr)) {
@@ -875,6 +983,46 @@ conn_readable(conn *c)
 	}
 }
 
+// A new connection of replier r (accepted, or dialled in listen cases).
+static void
+conn_new(int fd, int r, uint16_t peer_port)
+{
+	conn *c = NULL;
+	for (int i = 0; i < MAXCONN; i++) {
+		if (G.cn[i].fd < 0 && G.cn[i].close_at == 0) {
+			c = &G.cn[i];
+			break;
+		}
+	}
+	if (c == NULL || G.next_serial >= MAXSERIAL) {
+		vf_harness_fail("too many connections");
+	}
+	memset(c, 0, offsetof(conn, rx));
+	c->fd        = fd;
+	c->rep       = r;
+	c->serial    = G.next_serial++;
+	c->peer_port = peer_port;
+	if (G.close_next_accept == 1) {
+		G.close_next_accept = 0;
+		conn_close(c, false);
+		step_done();
+		return;
+	}
+	if (G.close_next_accept == 2) {
+		G.close_next_accept = 0;
+		c->close_after_hs   = true;
+	}
+	uint8_t hello[8];
+	vf_sp_hello(hello, 0x31);
+	if (vf_fd_write_all(fd, hello, 8, 2000) != 0) {
+		bool done = c->close_after_hs;
+		conn_close(c, true);
+		if (done) {
+			step_done();
+		}
+	}
+}
+
 static void
 do_accept(int r)
 {
@@ -890,41 +1038,57 @@ do_accept(int r)
 			int on = 1;
 			setsockopt(fd, IPPROTO_TCP, TCP_NODELAY, &on, sizeof(on));
 		}
-		conn *c = NULL;
-		for (int i = 0; i < MAXCONN; i++) {
-			if (G.cn[i].fd < 0 && G.cn[i].close_at == 0) {
-				c = &G.cn[i];
-				break;
-			}
-		}
-		if (c == NULL || G.next_serial >= MAXSERIAL) {
-			vf_harness_fail("too many connections");
-		}
-		memset(c, 0, offsetof(conn, rx));
-		c->fd     = fd;
-		c->rep    = r;
-		c->serial = G.next_serial++;
-		c->peer_port = G.c.tran == 0 ? ntohs(sin.sin_port) : 0;
-		if (G.close_next_accept == 1) {
-			G.close_next_accept = 0;
-			conn_close(c, false);
-			step_done();
-			continue;
-		}
-		if (G.close_next_accept == 2) {
-			G.close_next_accept = 0;
-			c->close_after_hs   = true;
-		}
-		uint8_t hello[8];
-		vf_sp_hello(hello, 0x31);
-		if (vf_fd_write_all(fd, hello, 8, 2000) != 0) {
-			bool done = c->close_after_hs;
-			conn_close(c, true);
-			if (done) {
-				step_done();
-			}
+		conn_new(fd, r, G.c.tran == 0 ? ntohs(sin.sin_port) : 0);
+	}
+}
+
+// listen cases: replier r connects to the REQ socket's listener
+static void
+do_dial(int r)
+{
+	replier *rp = &G.rep[r];
+	int      fd = G.c.tran == 0 ? vf_tcp_connect(rp->port, 0) : vf_unix_connect(rp->path, 0);
+	if (fd < 0) {
+		// (the listener exists for the whole case; a full backlog at most)
+		vf_stat("adversary_dial_failed", 1);
+		rp->dial_at = vf_now_ns() + ms2ns(RECONN_MIN);
+		return;
+	}
+	fcntl(fd, F_SETFL, fcntl(fd, F_GETFL) | O_NONBLOCK);
+	vf_stat("adversary_dials", 1);
+	conn_new(fd, r, rp->port);
+}
+
+static bool
+rep_has_conn(int r)
+{
+	for (int i = 0; i < MAXCONN; i++) {
+		if (G.cn[i].fd >= 0 && G.cn[i].rep == r) {
+			return true;
 		}
 	}
+	return false;
+}
+
+// The current step loses this connection from our side, now.  In listen cases
+// with redial mode 2 the replier connects again FIRST and drops the old
+// connection 8 ms later: the REQ socket then has a new, ready pipe while the
+// pipe that carries the request is still to fail.
+static void
+lose_conn(conn *c, int kind)
+{
+	if (G.c.listen && G.c.redial == 2 && G.rep[c->rep].up && atomic_load(&G.dial_ok)) {
+		do_dial(c->rep);
+		c->doomed               = true;
+		c->close_at             = vf_now_ns() + ms2ns(8);
+		c->close_completes_step = true;
+		G.consumed              = true;
+		mark_fault(kind);
+		vf_stat("adversary_dialled_before_dropping_old_connection", 1);
+		return;
+	}
+	conn_close(c, false);
+	step_done();
 }
 
 static void *
@@ -956,10 +1120,33 @@ adversary(void *arg)
 				}
 			}
 		}
+		for (int i = 0; i < MAXCONN && G.c.rtl; i++) {
+			conn *c = &G.cn[i];
+			if (c->on_cmd && (c->fd < 0 || atomic_load(&G.close_cmd))) {
+				c->on_cmd = false;
+				conn_close(c, false);
+				step_done();
+			}
+		}
+		for (int r = 0; r < G.c.nrep && G.c.listen; r++) {
+			replier *rp = &G.rep[r];
+			if (rp->up && now >= rp->dial_at && atomic_load(&G.dial_ok) && !rep_has_conn(r)) {
+				do_dial(r);
+			}
+		}
 		for (int i = 0; i < MAXCONN; i++) {
 			conn *c = &G.cn[i];
 			if (c->close_at != 0 && (c->fd < 0 || now >= c->close_at)) {
 				bool done               = c->close_completes_step;
+				if (c->fd >= 0 && c->doomed && G.c.listen && G.c.redial == 2) {
+					// is the replacement connection up (handshake read) by now?
+					for (int k = 0; k < MAXCONN; k++) {
+						if (k != i && G.cn[k].fd >= 0 && G.cn[k].rep == c->rep && G.cn[k].hs_done && !G.cn[k].doomed) {
+							vf_stat("old_connection_dropped_while_new_one_up", 1);
+							break;
+						}
+					}
+				}
 				c->close_at             = 0;
 				c->close_completes_step = false;
 				conn_close(c, false);
@@ -993,6 +1180,22 @@ adversary(void *arg)
 			if (fired) {
 				if (byclose) {
 					vf_stat("iofault_seen_as_requester_close", 1);
+					if (G.c.nrep == 1) {
+						// the requester closed its only connection and everything
+						// it wrote there has been read: a request that was handed
+						// to a pipe and never reached the wire was in (or queued
+						// behind) the failed write
+						long hit = 0;
+						pthread_mutex_lock(&G.mx);
+						for (int i = 0; i < G.nx; i++) {
+							hit += G.x[i].state == X_OUT && G.x[i].handed && G.x[i].wire == 0;
+						}
+						pthread_mutex_unlock(&G.mx);
+						vf_stat("iofault_1rep_seen_as_requester_close", 1);
+						if (hit) {
+							vf_stat("iofault_1rep_hit_handed_over_request", 1);
+						}
+					}
 				}
 				step_done();
 			}
@@ -1203,6 +1406,9 @@ issue_send(rctx *rc, int xi)
 static int
 pick_op(rctx *rc, bool final)
 {
+	if (G.c.rtl && !final) {
+		return rc->idx == 0 ? OP_LATE : OP_NORMAL;
+	}
 	if (final || !G.c.ops || vf_chance(&rc->r, 1, 3)) {
 		return OP_NORMAL;
 	}
@@ -1232,6 +1438,12 @@ judge(rctx *rc, int xi, int rv, nng_msg *m, uint64_t t_done)
 		} else {
 			ok = true;
 			vf_stat("replies_verified", 1);
+			if (x->reply_seen_then_loss) {
+				if (x->retry_ms < 0) {
+					vf_stat("noretry_reply_then_loss_judged", 1);
+				}
+				vf_stat(x->retry_ms < 0 ? "noretry_reply_then_loss_reply_delivered" : "retry_reply_then_loss_reply_delivered", 1);
+			}
 			if (x->partial > 0) {
 				vf_stat("answered_after_partial_transmission", 1);
 			}
@@ -1239,6 +1451,12 @@ judge(rctx *rc, int xi, int rv, nng_msg *m, uint64_t t_done)
 				// submitted during an outage, first copy lost on a live
 				// connection, rescued by the resend timer
 				vf_stat("nopipe_submit_rescued_by_timer", 1);
+			}
+			if (x->wire >= 3 && x->loss_copies == 0) {
+				vf_stat("third_copy_by_timer_answered", 1);
+				if (G.c.reploss) {
+					vf_stat("third_copy_by_timer_answered_in_repeated_loss_plan", 1);
+				}
 			}
 			if (x->wire > 1) {
 				vf_stat("answered_after_retransmission", 1);
@@ -1257,6 +1475,14 @@ judge(rctx *rc, int xi, int rv, nng_msg *m, uint64_t t_done)
 		} else {
 			vf_stat("noretry_econnreset", 1);
 			vf_class("noretry/econnreset/%s/after-%s/wire%d", opname[x->op], fname[atomic_load(&G.last_fault_kind)], x->wire);
+			if (x->reply_seen_then_loss) {
+				// the reply had reached the context, the connection was lost
+				// AFTER that: nothing to wait for, nothing was lost
+				char key[96];
+				vf_stat("noretry_reply_then_loss_judged", 1);
+				snprintf(key, sizeof(key), "C12/no-retry/reply-discarded-by-later-loss/%s", rc->is_sock ? "socket" : "ctx");
+				vf_violation(key, "%s: resend disabled; the replier wrote the complete reply to this request and then, on the same connection, the reply to another context's request; that context's receive returned its reply (so this reply had been handled by the socket before), then the connection was closed and the pipe removed, and only then this receive was posted: it failed with NNG_ECONNRESET instead of returning the reply", where);
+			}
 		}
 		x->state = X_RESET;
 		break;
@@ -1294,6 +1520,97 @@ judge(rctx *rc, int xi, int rv, nng_msg *m, uint64_t t_done)
 		nng_msg_free(m);
 	}
 	return ok;
+}
+
+// Submit the receive of the current exchange on rc->ra.
+static uint64_t
+post_recv(rctx *rc, long tmo_ms)
+{
+	nng_aio_set_timeout(rc->ra, (nng_duration) tmo_ms);
+	atomic_store(&rc->rdone, 0);
+	rc->t_post_prev = rc->t_post;
+	rc->t_post      = vf_now_ns();
+	if (rc->nposted > 0 && rc->prev_rv != NNG_ETIMEDOUT) {
+		// precondition of the known expire-loop window: the previous
+		// operation of this aio was picked for expiry, yet ended naturally
+		watchrec *w = &W[rc->idx];
+		unsigned  n = atomic_load(&w->npick);
+		if (n > 0 && atomic_load(&w->pick[(n - 1) % NPICK]) >= rc->t_post_prev) {
+			vf_stat("recv_reposted_after_expire_pick_and_natural_end", 1);
+		}
+	}
+	vf_stat("recv_posts_watched", 1);
+	if (rc->is_sock) {
+		nng_socket_recv(G.sock, rc->ra);
+	} else {
+		nng_ctx_recv(rc->ctx, rc->ra);
+	}
+	return rc->t_post;
+}
+
+// "the receive times out" ends a request only when the timeout the
+// application asked for has elapsed (one-sided: t_done is taken after the
+// completion and t_post before the submission, so the elapsed time is
+// over-estimated).  Call once for every receive that completed on rc->ra.
+// An early NNG_ETIMEDOUT is filed under the known key only with the evidence of
+// the known window: the expire loop picked this aio during its PREVIOUS
+// submission (after that one was posted, before this one was), that submission
+// did not itself end with NNG_ETIMEDOUT (then the pick's cancel call was spent on
+// it), the pick is recent (the expire thread sits on a picked aio only while it
+// is delayed; older only if a harness thread was starved too), and the expire
+// loop did not pick the aio during this submission.  Returns true if early.
+static bool
+check_recv_timeout(rctx *rc, int xi, int rv, long tmo_ms, uint64_t t_done)
+{
+	xrec    *x       = &G.x[xi];
+	long     el_ms   = (long) ((t_done - rc->t_post) / 1000000);
+	bool     early   = false;
+	uint64_t prev    = 0, cur = 0;
+	watchrec *w      = &W[rc->idx];
+	unsigned  n      = atomic_load(&w->npick);
+	for (unsigned k = 0; k < NPICK && k < n; k++) {
+		uint64_t t = atomic_load(&w->pick[(n - 1 - k) % NPICK]);
+		if (t >= rc->t_post) {
+			cur = cur ? cur : t;
+		} else if (rc->nposted > 0 && t >= rc->t_post_prev) {
+			prev = prev ? prev : t;
+		}
+	}
+	if (rv == NNG_ETIMEDOUT && el_ms + 2 < tmo_ms) {
+		const char *why   = NULL;
+		uint64_t    stall = atomic_load(&stall_last_ns);
+		char        key[96];
+		early = true;
+		if (rc->nposted == 0) {
+			why = "first-use-of-aio";
+		} else if (cur != 0) {
+			why = "expired-in-this-submission";
+		} else if (prev == 0) {
+			why = "no-expire-pick";
+		} else if (rc->prev_rv == NNG_ETIMEDOUT) {
+			why = "previous-receive-timed-out";
+		} else if (rc->t_post - prev >= ms2ns(250) && stall < prev) {
+			why = "expire-pick-not-recent";
+		}
+		if (why == NULL) {
+			vf_stat("timeout_early_classified_stale_expiry_cancel", 1);
+			snprintf(key, sizeof(key), "C12/timeout-early/stale-expiry-cancel");
+		} else {
+			snprintf(key, sizeof(key), "C12/timeout-early/unexplained/%s", why);
+		}
+		vf_violation(key, "ctx %d request %d op %s resend %s: receive with a %ld ms timeout failed with NNG_ETIMEDOUT after %ld ms (%d receives earlier on this aio, the previous one ended with %s; expire loop picked this aio during the previous submission: %s%ld ms before this one was posted, during this submission: %s; the request was on the wire %d times)",
+		    rc->idx, xi, opname[x->op], rn(x->retry_ms), tmo_ms, el_ms, rc->nposted, rc->nposted ? (rc->prev_rv ? nng_strerror(rc->prev_rv) : "a reply") : "-", prev ? "" : "never; ", prev ? (long) ((rc->t_post - prev) / 1000000) : 0L, cur ? "yes" : "no", x->wire);
+	} else if (rv == NNG_ETIMEDOUT) {
+		// positive control of the witness: a timeout that is due comes
+		// through an expire-loop pick of this very submission
+		vf_stat("recv_timeouts_on_time", 1);
+		if (cur != 0) {
+			vf_stat("recv_timeouts_on_time_with_expire_pick_seen", 1);
+		}
+	}
+	rc->nposted++;
+	rc->prev_rv = rv;
+	return early;
 }
 
 static void
@@ -1369,9 +1686,7 @@ prelude_step(rctx *rc, int op, long tmo_ms, int *rvp)
 	if (nng_aio_result(rc->sa) != 0) {
 		vf_harness_fail("history prelude: send failed: %s", nng_strerror(nng_aio_result(rc->sa)));
 	}
-	nng_aio_set_timeout(rc->ra, (nng_duration) tmo_ms);
-	atomic_store(&rc->rdone, 0);
-	nng_ctx_recv(rc->ctx, rc->ra);
+	post_recv(rc, tmo_ms);
 	uint64_t t_term = 0;
 	if (op == OP_CANCEL) {
 		vf_msleep(3);
@@ -1388,6 +1703,7 @@ prelude_step(rctx *rc, int op, long tmo_ms, int *rvp)
 	int      rv = (int) nng_aio_result(rc->ra);
 	nng_msg *m  = rv == 0 ? nng_aio_get_msg(rc->ra) : NULL;
 	nng_aio_set_msg(rc->ra, NULL);
+	check_recv_timeout(rc, xi, rv, tmo_ms, t_done);
 	judge(rc, xi, rv, m, t_term > t_done ? t_term : t_done);
 	vf_stat("exchanges", 1);
 	*rvp = rv;
@@ -1476,18 +1792,33 @@ requester(void *arg)
 			abandon(rc, xi, false);
 			break;
 		}
-		if (x->op == OP_LATE) {
+		pthread_mutex_lock(&G.mx);
+		x->handed   = true;
+		x->t_handed = vf_now_ns();
+		pthread_mutex_unlock(&G.mx);
+		if (G.c.rtl && rc->idx == 0 && !x->final && !atomic_load(&G.close_cmd)) {
+			// subject of a reply-then-loss plan: wait until the barrier context
+			// got its reply (ours was written and handled before), have the
+			// connection closed, wait until the pipe is gone; only logical
+			// conditions - if one does not come true in time, nothing is judged
+			uint64_t t0 = vf_now_ns();
+			bool     seen, gone;
+			while (!(seen = atomic_load(&G.barrier_done)) && vf_now_ns() - t0 < B && !atomic_load(&G.abort)) {
+				vf_usleep(300);
+			}
+			atomic_store(&G.close_cmd, true);
+			while (!(gone = atomic_load(&G.npipes) == 0) && vf_now_ns() - t0 < 2 * B && !atomic_load(&G.abort)) {
+				vf_usleep(300);
+			}
+			pthread_mutex_lock(&G.mx);
+			x->reply_seen_then_loss = seen && gone && x->before_barrier;
+			pthread_mutex_unlock(&G.mx);
+			vf_stat(x->reply_seen_then_loss ? "reply_then_loss_sequence_established" : "reply_then_loss_sequence_not_established", 1);
+		} else if (x->op == OP_LATE) {
 			vf_msleep((int) vf_range(&rc->r, 1, 40));
 		}
 		long tmo_ms = x->op == OP_TIMEOUT ? 1 + (long) vf_below(&rc->r, eff * 2) : LONG_MS;
-		nng_aio_set_timeout(rc->ra, (nng_duration) tmo_ms);
-		atomic_store(&rc->rdone, 0);
-		uint64_t t_post = vf_now_ns();
-		if (rc->is_sock) {
-			nng_socket_recv(G.sock, rc->ra);
-		} else {
-			nng_ctx_recv(rc->ctx, rc->ra);
-		}
+		post_recv(rc, tmo_ms);
 		uint64_t t_term = 0;
 		if (x->op == OP_CANCEL) {
 			sleep_unless(&rc->rdone, vf_chance(&rc->r, 1, 3) ? 0 : (int) vf_below(&rc->r, eff * 3 / 2));
@@ -1514,12 +1845,8 @@ requester(void *arg)
 		rv           = (int) nng_aio_result(rc->ra);
 		nng_msg *m   = rv == 0 ? nng_aio_get_msg(rc->ra) : NULL;
 		nng_aio_set_msg(rc->ra, NULL);
-		if (rv == NNG_ETIMEDOUT && (long) ((t_done - t_post) / 1000000) + 2 < tmo_ms) {
-			// "the receive times out" ends a request only when the timeout
-			// the application asked for has elapsed (one-sided: t_done is
-			// taken after the completion, so the elapsed time is over-estimated)
-			vf_violation("C12/timeout-early/stale-expiry-cancel", "ctx %d request %d op %s resend %s: receive with a %ld ms timeout failed with NNG_ETIMEDOUT after %ld ms (%d exchanges earlier on this aio; the request was on the wire %d times)", rc->idx, xi,
-			    opname[x->op], rn(x->retry_ms), tmo_ms, (long) ((t_done - t_post) / 1000000), count, x->wire);
+		if (check_recv_timeout(rc, xi, rv, tmo_ms, t_done)) {
+			// reported; the request is over all the same
 		} else if (rv == NNG_ETIMEDOUT && x->op != OP_TIMEOUT) {
 			// LONG_MS expired: cannot happen before the bound
 			set_miss("receive timed out", xi);
@@ -1533,6 +1860,9 @@ requester(void *arg)
 		}
 		bool answered = judge(rc, xi, rv, m, t_done);
 		vf_stat("exchanges", 1);
+		if (G.c.rtl && rc->idx == 1 && answered) {
+			atomic_store(&G.barrier_done, true);
+		}
 		if (x->final && answered && pre < 0) {
 			break;
 		}
@@ -1595,6 +1925,10 @@ run_case(long idx, const casecfg *cfg, bool recheck)
 	atomic_store(&G.go, false);
 	atomic_store(&G.started, false);
 	atomic_store(&G.hold, false);
+	atomic_store(&G.dial_ok, false);
+	atomic_store(&G.barrier_done, false);
+	atomic_store(&G.close_cmd, false);
+	G.rtl_xi[0] = G.rtl_xi[1] = -1;
 	atomic_store(&G.t_fault, 0);
 	atomic_store(&G.plan_done, false);
 	atomic_store(&G.fence_req, 0);
@@ -1609,8 +1943,8 @@ run_case(long idx, const casecfg *cfg, bool recheck)
 	for (int i = 0; i < MAXCONN; i++) {
 		G.cn[i].fd = -1;
 	}
-	vf_case_begin(idx, "%s tran=%s resend=%s tick=%d ctx=%d%s rep=%d plan=%s%s ops=%d stale=%d jit=%d big=%d key=%llx%s", cfg->enumerated ? "enum" : "sampled", cfg->tran ? "ipc" : "tcp", cfg->rname, cfg->tick_ms, cfg->nctx,
-	    cfg->use_sock ? "+sock" : "", cfg->nrep, gapname[cfg->gap], cfg->shape, cfg->ops, cfg->stale, cfg->jit_permille, cfg->big, (unsigned long long) cfg->key, recheck ? " (recheck)" : "");
+	vf_case_begin(idx, "%s tran=%s resend=%s tick=%d ctx=%d%s rep=%d plan=%s%s ops=%d stale=%d jit=%d big=%d listen=%d/%d key=%llx%s", cfg->enumerated ? "enum" : "sampled", cfg->tran ? "ipc" : "tcp", cfg->rname, cfg->tick_ms, cfg->nctx,
+	    cfg->use_sock ? "+sock" : "", cfg->nrep, gapname[cfg->gap], cfg->shape, cfg->ops, cfg->stale, cfg->jit_permille, cfg->big, cfg->listen, cfg->redial, (unsigned long long) cfg->key, recheck ? " (recheck)" : "");
 	vf_watchdog(90);
 
 	for (int r = 0; r < cfg->nrep; r++) {
@@ -1618,7 +1952,7 @@ run_case(long idx, const casecfg *cfg, bool recheck)
 		memset(rp, 0, sizeof(*rp));
 		rp->lfd = rp->spare = -1;
 		snprintf(rp->path, sizeof(rp->path), "/tmp/vf-c12-%d-%d.sock", (int) getpid(), r);
-		rep_up(rp);
+		rep_up(rp); // (listen cases: it dials once the REQ socket's listeners exist)
 	}
 	if (pthread_create(&G.ath, NULL, adversary, NULL) != 0) {
 		vf_harness_fail("pthread_create");
@@ -1637,7 +1971,28 @@ run_case(long idx, const casecfg *cfg, bool recheck)
 	nng_pipe_notify(G.sock, NNG_PIPE_EV_ADD_PRE, pipe_cb, NULL);
 	nng_pipe_notify(G.sock, NNG_PIPE_EV_ADD_POST, pipe_cb, NULL);
 	nng_pipe_notify(G.sock, NNG_PIPE_EV_REM_POST, pipe_cb, NULL);
-	for (int r = 0; r < cfg->nrep; r++) {
+	for (int r = 0; r < cfg->nrep && cfg->listen; r++) {
+		char         url[160];
+		nng_listener l;
+		int          port = 0;
+		if (cfg->tran == 0) {
+			snprintf(url, sizeof(url), "tcp://127.0.0.1:0");
+		} else {
+			unlink(G.rep[r].path);
+			snprintf(url, sizeof(url), "ipc://%s", G.rep[r].path);
+		}
+		if ((rv = nng_listener_create(&l, G.sock, url)) != 0 || (rv = nng_listener_start(l, 0)) != 0) {
+			vf_harness_fail("listener %s: %s", url, nng_strerror(rv));
+		}
+		if (cfg->tran == 0) {
+			if ((rv = nng_listener_get_int(l, NNG_OPT_BOUND_PORT, &port)) != 0 || port <= 0) {
+				vf_harness_fail("bound port: %s", nng_strerror(rv));
+			}
+			G.rep[r].port = (uint16_t) port;
+		}
+	}
+	atomic_store(&G.dial_ok, cfg->listen);
+	for (int r = 0; r < cfg->nrep && !cfg->listen; r++) {
 		char url[160];
 		if (cfg->tran == 0) {
 			snprintf(url, sizeof(url), "tcp://127.0.0.1:%u", G.rep[r].port);
@@ -1671,6 +2026,8 @@ run_case(long idx, const casecfg *cfg, bool recheck)
 			vf_harness_fail("aio alloc");
 		}
 		rc[i].retry_ms = cfg->retry_ms; // inherited from the socket at nng_ctx_open
+		atomic_store(&W[i].npick, 0);
+		atomic_store(&W[i].aio, (const void *) rc[i].ra);
 	}
 	if (cfg->mixed) {
 		// own values per context; the socket option is changed after the
@@ -1683,6 +2040,12 @@ run_case(long idx, const casecfg *cfg, bool recheck)
 	}
 	if (cfg->jit_permille > 0) {
 		vf_pt_jitter(cfg->key, cfg->jit_permille, cfg->jit_us);
+	}
+	if (getenv("C12_WIDEN_EXPIRE_US") != NULL) {
+		// validation aid only: hold the expire thread between its pick and
+		// the cancel call, which makes the known window easy to hit
+		int us = atoi(getenv("C12_WIDEN_EXPIRE_US"));
+		vf_pt_target(NNI_VP_AIO_EXPIRE_BEFORE_CANCEL, 1000, us / 2, us);
 	}
 	if (cfg->big) {
 		// nng's own sends move at most 8 kB per call from now on
@@ -1746,12 +2109,15 @@ run_case(long idx, const casecfg *cfg, bool recheck)
 	for (int i = 0; i < cfg->nctx; i++) {
 		nng_aio_stop(rc[i].sa);
 		nng_aio_stop(rc[i].ra);
+		vf_stat("recv_expire_picks_seen", (long) atomic_load(&W[i].npick));
+		atomic_store(&W[i].aio, NULL);
 		if (!rc[i].is_sock && !(cfg->gap && i == 1 && c1_closed)) {
 			nng_ctx_close(rc[i].ctx);
 		}
 		nng_aio_free(rc[i].sa);
 		nng_aio_free(rc[i].ra);
 	}
+	atomic_store(&G.dial_ok, false); // nobody dials a port that is about to be somebody else's
 	nng_socket_close(G.sock);
 	atomic_store(&G.stop, true);
 	pthread_join(G.ath, NULL);
@@ -1790,11 +2156,32 @@ run_case(long idx, const casecfg *cfg, bool recheck)
 		if (cfg->big) {
 			vf_stat("cases_big_requests", 1);
 		}
+		if (cfg->reploss) {
+			vf_stat("repeated_loss_plan_cases", 1);
+		}
+		if (cfg->listen) {
+			long lng_retx = 0, econn = 0;
+			for (int i = 0; i < G.nx; i++) {
+				lng_retx += G.x[i].retry_ms == LONG_RETRY_MS && G.x[i].state == X_ANSWERED && G.x[i].loss_copies > 0;
+				econn += G.x[i].state == X_RESET;
+			}
+			vf_stat("cases_req_listens", 1);
+			vf_stat("req_listens_retx_pipe_loss", G.retx_loss);
+			vf_stat("req_listens_longretry_answered_after_retransmission", lng_retx);
+			vf_stat("req_listens_noretry_econnreset", econn);
+			vf_class("listen/%s/redial%d/%s", cfg->tran ? "ipc" : "tcp", cfg->redial, cfg->mixed ? "mixed" : cfg->retry_ms < 0 ? "inf" : r_timer(cfg->retry_ms) ? "finite" : "long");
+		}
 		if (r_timer(cfg->retry_ms) && cfg->tick_ms > cfg->retry_ms) {
 			vf_stat("cases_tick_gt_resend", 1);
 		}
 		vf_stat("cases", 1);
 		vf_stat(cfg->enumerated ? "cases_enumerated" : "cases_sampled", 1);
+		if (!cfg->enumerated) {
+			vf_stat(cfg->tran ? "cases_sampled_ipc" : "cases_sampled_tcp", 1);
+		}
+		if (cfg->rtl) {
+			vf_stat("reply_then_loss_plan_cases", 1);
+		}
 		vf_stat("request_frames_logged", G.frames);
 		vf_stat("retx_pipe_loss", G.retx_loss);
 		vf_stat("retx_timer", G.retx_timer);
@@ -1815,7 +2202,11 @@ run_case(long idx, const casecfg *cfg, bool recheck)
 		if (nf > 1) {
 			vf_stat("multi_fault_cases", 1);
 		}
-		if (cfg->gap) {
+		if (cfg->reploss) {
+			vf_class("plan/repeated-loss/%s/%s/%s", cfg->tran ? "ipc" : "tcp", cfg->rname, cfg->shape);
+		} else if (cfg->rtl) {
+			vf_class("plan/reply-then-loss/%s/%s/late-recv-on-%s", cfg->tran ? "ipc" : "tcp", cfg->rname, cfg->use_sock ? "socket" : "ctx");
+		} else if (cfg->gap) {
 			if (history_ok && G.faults[F_DROP] > 0 && G.retx_timer > 0) {
 				// the whole history happened and the timer did its job
 				vf_stat("idle_gap_then_reply_loss_cases", 1);
@@ -1856,7 +2247,7 @@ check_case(long idx, casecfg *cfg)
 			// judged by the resend time of the request that missed first
 			snprintf(disc, sizeof(disc), "after-idle-gap/%s-then-%s", gapname[cfg->gap], cfg->use_sock ? "socket" : "ctx");
 			snprintf(key, sizeof(key), "C12/%s/%s", r1 < 0 ? "no-retry/no-econnreset-after-loss" : r_timer(r1) ? "bounded-progress/not-answered" : "bounded-progress/not-retransmitted-after-loss",
-			    cfg->gap ? disc : cfg->nsteps == 1 ? fname[cfg->steps[0].kind] : cfg->enumerated ? "outage-then-reply-loss" : "multi-fault");
+			    cfg->gap ? disc : cfg->reploss ? "repeated-reply-loss" : cfg->nsteps == 1 ? fname[cfg->steps[0].kind] : cfg->enumerated ? "outage-then-reply-loss" : "multi-fault");
 			vf_violation(key, "missed twice (bound %ld ms after the last fault). first run: %s; second run: %s", G.miss_bound_ms, first, G.miss_desc);
 		}
 		if ((m1 & 2) && (m2 & 2)) {
@@ -1902,6 +2293,7 @@ main(int argc, char **argv)
 	vf_init(argc, argv);
 	vf_nng_init(4, 2, 2);
 	pthread_mutex_init(&G.mx, NULL);
+	vf_ev_hook(ev_hook);
 	{
 		pthread_t      t;
 		pthread_attr_t at;
@@ -1982,6 +2374,71 @@ main(int argc, char **argv)
 				}
 			}
 		}
+		// repeated-loss plans: the replies to two (three) consecutive copies of
+		// ONE request are lost / late on a connection that stays up, one context,
+		// one replier: only the resend timer firing a second (third) time gets
+		// the request answered (bound: RESENDTIME + tick + 2 s after each loss)
+		for (int tran = 0; tran < 2; tran++) {
+			for (int ri = 0; ri < 3; ri++) {
+				for (int pl = 1; pl <= 4; pl++, idx++) {
+					static const int kinds[5][3] = { { 0 }, { F_DROP, F_DROP, -1 }, { F_DROP, F_DELAY, -1 }, { F_DELAY, F_DROP, -1 }, { F_DROP, F_DROP, F_DROP } };
+					if ((idx % vf_nshards) != vf_shard || !vf_want_case(idx)) {
+						continue;
+					}
+					casecfg c;
+					memset(&c, 0, sizeof(c));
+					c.enumerated = true;
+					c.tran       = tran;
+					c.retry_ms   = resends[ri];
+					c.tick_ms    = 5 + (int) (vf_mix64(vf_seed ^ (uint64_t) idx) % 16);
+					c.nrep       = 1;
+					c.nctx       = 1;
+					c.reploss    = pl;
+					c.key        = vf_mix64(vf_seed * 31 + (uint64_t) idx);
+					c.nonce      = (uint32_t) (c.key >> 20) & 0xffff;
+					for (c.nsteps = 0; c.nsteps < 3 && kinds[pl][c.nsteps] >= 0; c.nsteps++) {
+						c.steps[c.nsteps] = (step){ kinds[pl][c.nsteps], 0, -1 };
+						fix_step(&c.steps[c.nsteps], c.retry_ms);
+					}
+					check_case(idx, &c);
+					if ((++ran % 24) == 0) {
+						vf_nng_fini("C12");
+						vf_nng_init(4, 2, 2);
+					}
+				}
+			}
+		}
+		// reply-then-loss plans: the receive is posted when the reply has
+		// reached the context AND the connection was lost after that (see rtl
+		// in casecfg; all resend classes: the reply must be delivered in each)
+		for (int tran = 0; tran < 2; tran++) {
+			for (int ri = 0; ri < NRESENDS; ri++) {
+				for (int sock = 0; sock < 2; sock++, idx++) {
+					if ((idx % vf_nshards) != vf_shard || !vf_want_case(idx)) {
+						continue;
+					}
+					casecfg c;
+					memset(&c, 0, sizeof(c));
+					c.enumerated = true;
+					c.tran       = tran;
+					c.retry_ms   = resends[ri];
+					c.tick_ms    = 5 + (int) (vf_mix64(vf_seed ^ (uint64_t) idx) % 16);
+					c.nrep       = 1;
+					c.nctx       = 2;
+					c.use_sock   = sock;
+					c.rtl        = true;
+					c.key        = vf_mix64(vf_seed * 31 + (uint64_t) idx);
+					c.nonce      = (uint32_t) (c.key >> 20) & 0xffff;
+					c.nsteps     = 1;
+					c.steps[0]   = (step){ F_CLOSE_REPLIED, 0, 0 };
+					check_case(idx, &c);
+					if ((++ran % 24) == 0) {
+						vf_nng_fini("C12");
+						vf_nng_init(4, 2, 2);
+					}
+				}
+			}
+		}
 	} else {
 		for (long i = 0; i < vf_cases; i++, idx++) {
 			if (!vf_want_case(idx)) {
@@ -2043,6 +2500,9 @@ main(int argc, char **argv)
 				}
 				fix_step(s, c.retry_ms);
 			}
+			// (drawn last: the other parameters of a case (seed, idx) stay what they were)
+			c.listen = vf_chance(&r, 1, 4);
+			c.redial = (int) vf_below(&r, 3);
 			check_case(idx, &c);
 			if ((++ran % 16) == 0) {
 				vf_nng_fini("C12");
